@@ -608,7 +608,7 @@ def check(rep: Report, tier: str, seed: int) -> None:
     state_correspondence(rep, rng, 4000 if tier == "quick" else 200000)
     loop_level(rep, seeded(seed * 48611 + 5), 120 if tier == "quick" else 4000)
     ulp_finding(rep)
-    if rep.broken and not rep.failing:
+    if rep.broken and not rep.unknown_failing():
         search(rep, seed, 4000 if tier == "quick" else 60000)
 
 
